@@ -71,6 +71,23 @@ class V:
 class IntV(V):
     e: z3.ExprRef
     bits: tuple = None  # (lo, hi): value is a multiple of 2^lo and < 2^hi (tracked through constant masks/shifts; lets `a | b` of disjoint fields be a + b)
+    bl: tuple = None  # bit list (LSB first) of 0/1-valued z3 integers with e == sum(bl[i] * 2^i): lets & | >> << between symbolic operands be exact
+
+
+def bitlist_value(bl):
+    """the non-negative integer denoted by a bit list, as a (simplified) linear term"""
+    terms = [b_ * (1 << i) for i, b_ in enumerate(bl) if not (z3.is_int_value(b_) and b_.as_long() == 0)]
+    return z3.simplify(z3.Sum(terms)) if terms else z3.IntVal(0)
+
+
+def const_bitlist(v, width):
+    return tuple(z3.IntVal((v >> i) & 1) for i in range(width))
+
+
+def bitlist_int(name, width):
+    """(IntV with a fresh bit list, range facts for the bits)"""
+    bl = tuple(z3.Int(f"{name}.bit{i}") for i in range(width))
+    return IntV(bitlist_value(bl), (0, width), bl), [z3.And(b_ >= 0, b_ <= 1) for b_ in bl]
 
 
 @dataclass
@@ -586,6 +603,33 @@ class Engine:
         lb = l.bits if isinstance(l, IntV) else None
         rb = r.bits if isinstance(r, IntV) else None
         bs_, as_ = z3.simplify(b), z3.simplify(a)
+        # bit-list operands: & | >> << are computed bit by bit (exact, no div/mod)
+        lbl = l.bl if isinstance(l, IntV) else None
+        rbl = r.bl if isinstance(r, IntV) else None
+        if op in ("BitAnd", "BitOr", "RShift", "LShift") and (lbl is not None or rbl is not None):
+            def as_bl(v_, bl_, other):
+                if bl_ is not None:
+                    return bl_
+                if z3.is_int_value(v_) and v_.as_long() >= 0:
+                    return const_bitlist(v_.as_long(), max(len(other), v_.as_long().bit_length()))
+                return None
+            if op in ("RShift", "LShift"):
+                if lbl is not None and z3.is_int_value(bs_) and 0 <= bs_.as_long() <= 128:
+                    c_ = bs_.as_long()
+                    nb = lbl[c_:] if op == "RShift" else tuple(z3.IntVal(0) for _ in range(c_)) + lbl
+                    nb = nb or (z3.IntVal(0),)
+                    return IntV(bitlist_value(nb), None, nb)
+            else:
+                x_, y_ = as_bl(as_, lbl, rbl or ()), as_bl(bs_, rbl, lbl or ())
+                if x_ is not None and y_ is not None:
+                    w_ = max(len(x_), len(y_))
+                    x_ = x_ + tuple(z3.IntVal(0) for _ in range(w_ - len(x_)))
+                    y_ = y_ + tuple(z3.IntVal(0) for _ in range(w_ - len(y_)))
+                    if op == "BitAnd":
+                        nb = tuple(z3.simplify(z3.If(z3.And(p_ == 1, q_ == 1), z3.IntVal(1), z3.IntVal(0))) for p_, q_ in zip(x_, y_))
+                    else:
+                        nb = tuple(z3.simplify(z3.If(z3.Or(p_ == 1, q_ == 1), z3.IntVal(1), z3.IntVal(0))) for p_, q_ in zip(x_, y_))
+                    return IntV(bitlist_value(nb), None, nb)
         if op == "BitOr" and not z3.is_int_value(bs_) and not z3.is_int_value(as_):
             # symbolic | symbolic: exact when the operands occupy disjoint bit ranges (known from constant masks and shifts)
             if lb and rb and (lb[1] <= rb[0] or rb[1] <= lb[0]):
@@ -643,6 +687,8 @@ class Engine:
                     e = z3.If(b == k, z3.IntVal(as_.as_long() << k), e)
                 return e
             raise Unsupported(f"<< with symbolic shift@{n.lineno}")
+        if op in ("BitAnd", "BitOr") and z3.is_int_value(as_) and z3.is_int_value(bs):
+            return z3.IntVal(as_.as_long() & bs.as_long() if op == "BitAnd" else as_.as_long() | bs.as_long())  # constants (also negative ones: Python integers)
         if op == "BitAnd":
             if z3.is_int_value(bs) and bs.as_long() >= 0:
                 return self.and_const(st, a, bs.as_long(), n)
